@@ -76,6 +76,100 @@ class Tmpl:
         return f"<Tmpl {self.rel}>"
 
 
+def _scope_nodes(N, scope):
+    """nodes of a macro body (or template top level) without descending into nested macros"""
+    out = []
+
+    def rec(n):
+        for c in n.iter_child_nodes():
+            if isinstance(c, N.Macro):
+                continue
+            out.append(c)
+            rec(c)
+
+    rec(scope)
+    return out
+
+
+def _replace_names(N, node, mapping, depth=0):
+    """replace load-context Name nodes below `node` by the expression they are bound to (in place)"""
+    if depth > 40:
+        return
+    for field in node.fields:
+        v = getattr(node, field, None)
+        if isinstance(v, N.Node):
+            if isinstance(v, N.Name) and v.ctx == "load" and v.name in mapping:
+                setattr(node, field, mapping[v.name])
+            elif not isinstance(v, N.Macro):
+                _replace_names(N, v, mapping, depth + 1)
+        elif isinstance(v, list):
+            for i, x in enumerate(v):
+                if isinstance(x, N.Name) and x.ctx == "load" and x.name in mapping:
+                    v[i] = mapping[x.name]
+                elif isinstance(x, N.Node) and not isinstance(x, N.Macro):
+                    _replace_names(N, x, mapping, depth + 1)
+
+
+def inline_single_sets(N, ast) -> int:
+    """Normalisation applied to every parsed template: inside each macro, a template variable that is assigned exactly once
+    (`{% set x = expr %}`), is not a parameter or loop variable, and whose expression is pure (no macro call, no
+    unique-name generator) is replaced by that expression at every use.  Hoisting a sub-expression into a named local, or
+    inlining one, therefore does not change what any rule sees.  Variables assigned on several branches are resolved per
+    path by the renderer (j2text)."""
+    total = 0
+    for m in ast.find_all(N.Macro):
+        nodes = _scope_nodes(N, m)
+        counts = {}
+        bound = {}
+        blocked = {a.name for a in m.args}
+        for n in nodes:
+            if isinstance(n, N.Assign):
+                if isinstance(n.target, N.Name):
+                    counts[n.target.name] = counts.get(n.target.name, 0) + 1
+                    bound[n.target.name] = n
+                else:
+                    for x in n.target.find_all(N.Name):
+                        blocked.add(x.name)
+            elif isinstance(n, N.AssignBlock) and isinstance(n.target, N.Name):
+                blocked.add(n.target.name)
+            elif isinstance(n, N.For):
+                for x in ([n.target] if isinstance(n.target, N.Name) else list(n.target.find_all(N.Name))):
+                    blocked.add(x.name)
+        # an assignment inside a for loop is re-executed per iteration and invisible outside: never inlined
+        in_loop = set()
+        for n in nodes:
+            if isinstance(n, N.For):
+                for a in n.find_all(N.Assign):
+                    if isinstance(a.target, N.Name):
+                        in_loop.add(a.target.name)
+        mapping = {}
+        for name, cnt in counts.items():
+            if cnt != 1 or name in blocked or name in in_loop:
+                continue
+            e = bound[name].node
+            subs = [e] + list(e.find_all(N.Node))
+            if any(isinstance(x, N.Call) for x in subs):
+                continue
+            if any(isinstance(x, N.Filter) and "unique" in x.name for x in subs):
+                continue
+            mapping[name] = e
+        if not mapping:
+            continue
+        # resolve chains (x = y + 1, y = t.a): substitute inside the bound expressions first, innermost definitions first
+        for _ in range(4):
+            for name, e in list(mapping.items()):
+                holder = N.Tuple([e], "load")
+                _replace_names(N, holder, {k: v for k, v in mapping.items() if k != name})
+                mapping[name] = holder.items[0]
+        for n in nodes:
+            if isinstance(n, N.Assign) and isinstance(n.target, N.Name) and n.target.name in mapping:
+                continue
+        _replace_names(N, m, mapping)
+        # the defining statements keep their (now unused) right-hand sides
+        total += len(mapping)
+    return total
+
+
 def _equiv_transform(N, ast) -> int:
     """Control only (NVSA_J2_EQUIV=1, used by the self-test): rewrite every `{% if c %}A{% else %}B{% endif %}` without elif of
     a parsed template into the equivalent `{% if not c %}B{% else %}A{% endif %}`.  Checks must decide the same."""
@@ -106,6 +200,8 @@ class TemplateSet:
             except Exception as e:
                 raise AnalysisError(f"template {p} does not parse with the bundled parser: {type(e).__name__}: {e}")
             rel = p.relative_to(self.root).as_posix()
+            if os.environ.get("NVSA_J2_NOINLINE") != "1":
+                inline_single_sets(self.nodes, ast)
             if os.environ.get("NVSA_J2_EQUIV") == "1":
                 _equiv_transform(self.nodes, ast)
             self.templates.append(Tmpl(lang, kind, p, rel, src, ast))
@@ -244,6 +340,27 @@ _BIN = {
 _CMP = {"eq": "==", "ne": "!=", "gt": ">", "gteq": ">=", "lt": "<", "lteq": "<=", "in": "in", "notin": "not in"}
 
 
+_XS_SUB: typing.Optional[typing.Dict[str, typing.Any]] = None   # name -> node to print instead (set by xs_with)
+_XS_DEPTH = [0]
+
+
+class xs_with:
+    """context manager: print Name nodes that are bound (template `set`) to an alias or a string-building expression as that
+    expression, so that hoisting a sub-expression into a template variable does not change the canonical string"""
+
+    def __init__(self, sub):
+        self.sub = sub
+
+    def __enter__(self):
+        global _XS_SUB
+        self.prev = _XS_SUB
+        _XS_SUB = self.sub or None
+
+    def __exit__(self, *a):
+        global _XS_SUB
+        _XS_SUB = self.prev
+
+
 def xs(n) -> str:
     """Canonical string of a Jinja expression node (whitespace/quote/paren independent)."""
     N = _J.nodes
@@ -252,6 +369,12 @@ def xs(n) -> str:
     if isinstance(n, list):
         return "[" + ", ".join(xs(x) for x in n) + "]"
     if isinstance(n, N.Name):
+        if _XS_SUB is not None and n.name in _XS_SUB and _XS_DEPTH[0] < 8:
+            _XS_DEPTH[0] += 1
+            try:
+                return xs(_XS_SUB[n.name])
+            finally:
+                _XS_DEPTH[0] -= 1
         return n.name
     if isinstance(n, N.NSRef):
         return f"{n.name}.{n.attr}"
